@@ -5,7 +5,7 @@ import numpy as truenp
 
 from prysm.conf import config
 from prysm.mathops import np, fft, is_odd
-from prysm.fttools import forward_ft_unit, fourier_resample, crop_center, pad2d
+from prysm.fttools import forward_ft_unit, fourier_resample, crop_center, pad2d, mdft
 from prysm.convolution import apply_transfer_functions
 from prysm.coordinates import (
     warp,
@@ -84,6 +84,20 @@ def prepare_fwd_reverse_projection_coordinates(shape, rot):
     xfwd, yfwd = apply_homography(Mifwd, x, y)
     xrev, yrev = apply_homography(Mfwd, x, y)
     return (xfwd, yfwd), (xrev, yrev)
+
+
+def _fourier_resample_adjoint(fbar, zoom, in_shape):
+    # adjoint of fttools.fourier_resample(f, zoom) for f of shape in_shape,
+    # each step of fourier_resample transposed, in reverse order:
+    # scaling and real part -> idft2 -> fftshift -> fft2 -> ifftshift
+    if isinstance(zoom, (float, int)):
+        zoom = (zoom, zoom)
+    m, n = in_shape
+    Fbar = mdft.idft2_backprop(fbar, zoom, (m, n))
+    Fbar *= (zoom[0]*zoom[1])/(np.sqrt(m*n))
+    out = fft.fftshift(fft.ifft2(fft.ifftshift(Fbar))).real
+    out *= (m*n)  # ifft2 divides by m*n, the adjoint of fft2 does not
+    return out
 
 
 class DM:
@@ -316,8 +330,7 @@ class DM:
             protograd = pad2d(protograd, out_shape=self.Nintermediate)
 
         if self.upsample != 1:
-            upsample = self.ifn.shape[0]/protograd.shape[0]
-            protograd = fourier_resample(protograd, upsample)
+            protograd = _fourier_resample_adjoint(protograd, self.upsample, self.ifn.shape)
 
         if wfe:
             protograd *= (2*self.obliquity)
